@@ -256,6 +256,7 @@ var allAPI = func() []apiCall {
 func RunC10(c *Ctx) {
 	var long rjson.Buffer
 	var vr rjson.ValueReader
+	vrBait := &rjson.ValueReader{}
 	guard, gerr := h.NewGuard(16 << 20)
 	if gerr != nil {
 		c.Rec.R.Notes = append(c.Rec.R.Notes, "guard pages unavailable: "+gerr.Error())
@@ -272,6 +273,17 @@ func RunC10(c *Ctx) {
 				c.Rec.R.Counters["calls_"+apiBase(call.name)]++
 				if hasP && err == nil && (p < 0 || p > len(d)) {
 					c.Rec.Violate(cs, "offset outside [0,len] returned with a nil error", call.name, fmt.Sprintf("0 <= p <= %d", len(d)), fmt.Sprintf("p=%d", p))
+				}
+				// the same call on a copy whose SPARE CAPACITY holds plausible continuations: the
+				// result may depend on data[:len] only (the guard-page copy has cap == len, so an
+				// over-read through the capacity panics there and mis-parses here; seeded change C10r2-m1)
+				if len(d) <= 96 && hasP && !strings.Contains(call.name, "reused") && !strings.HasPrefix(call.name, "ValueReader.") {
+					p2, err2, _ := call.f(withBait(d), nil, &fresh, &long, vrBait)
+					c.Rec.Evals(1)
+					c.Rec.C("calls_repeated_with_bait_in_spare_capacity")
+					if p2 != p || (err2 == nil) != (err == nil) {
+						c.Rec.Violate(cs, "result depends on bytes beyond len(data) (spare capacity)", call.name, fmt.Sprintf("p=%d err=%s", p, errStr(err)), fmt.Sprintf("p=%d err=%s", p2, errStr(err2)))
+					}
 				}
 			})
 		}
@@ -452,9 +464,9 @@ func RunC10(c *Ctx) {
 		workload.W2(16, c.Seed, sink)
 		workload.W5([]int{1000, 70000, 1 << 20, 4 << 20}, sink)
 	} else {
-		// a third of the W1 sweep, rotating with the seed
+		// a fifth of the W1 sweep, rotating with the seed
 		workload.W1(false, func(cs *h.Case) {
-			if (cs.P[0]+int(c.Seed))%3 == 0 {
+			if (cs.P[0]+int(c.Seed))%5 == 0 {
 				sink(cs)
 			}
 		})
